@@ -11,7 +11,7 @@
    candidate sources at that moment and [group now (sources w1)] its live highest-priority group.
    All theorems hold for EVERY world [w] (reachable or not), every call, every merge mode. *)
 From OlaBase Require Import Bytes.
-From Coq Require Import Sorting.Sorted.
+From Coq Require Import Sorting.Sorted Sorting.Permutation.
 From C01 Require Import Gen Time Model Spec Proofs Reach History.
 Local Open Scope N_scope.
 
@@ -349,6 +349,27 @@ Proof.
 Qed.
 Print Assumptions c01_timeout_forever.
 
+(* History level, ports: after any sequence of calls, "is input port i patched" and everything the port
+   object holds - in particular its candidate frame - are given by folding History.port_view_step over
+   the history from (unpatched, fresh port): the candidate frame is the last data that arrived on the
+   port WHILE IT WAS PATCHED (first 512 slots), stamped with that wake-up time and with the priority the
+   port had at that moment (static value, or the inherited one when it was in inherit mode with full
+   capability - as left by the SetPriority/PortManager calls before it); data arriving while unpatched,
+   and every other call, leave it alone; it is the never-set source if no such data arrived. *)
+Theorem c01_port_frames : forall ops i,
+  (mem i (u_inputs (w_u (run ops))), w_ports (run ops) i) =
+  fold_left (port_view_step i) ops (false, new_port).
+Proof. exact port_frames_lemma. Qed.
+Print Assumptions c01_port_frames.
+
+(* Order freedom of the HTP merge: the slot-wise maximum depends only on the multiset of the group's
+   frames, so the frame of c01_htp is the same for every order in which ports and clients are listed
+   (patch order, client addresses). *)
+Theorem c01_htp_order_free : forall fs fs' : list (list N),
+  Permutation fs fs' -> slotwise_max fs = slotwise_max fs'.
+Proof. exact slotwise_perm. Qed.
+Print Assumptions c01_htp_order_free.
+
 (* struct timeval arithmetic of common/utils/Clock.cpp (TimerAdd with carry, timercmp, timerisset,
    Set(int64)) on normalised non-negative values is the microsecond arithmetic of the model:
    IsSet <-> us <> 0, IsActive(now) <-> us(now) < us(ts) + 2 500 000; constants regenerated. *)
@@ -526,3 +547,13 @@ Example ex_empty_and_duplicate :
   snd (step v (PortData 0 [10] 10 10)) = [WriteDMX 5 [10] 100] /\
   snd (step (fst (step v (PortData 0 [10] 10 10))) (PortData 0 [10] 10 10)) = [WriteDMX 5 [10] 100].
 Proof. vm_compute. repeat split; reflexivity. Qed.
+
+(* a port's view along a history: data while unpatched is ignored, the priority is the one at arrival *)
+Example ex_port_frames :
+  let ops := [PortData 0 [9] 5 5; AddInput 0; SetCaps 0 true; SetInherited 0 150; MgrInherit 0;
+              PortData 0 [1; 2] 10 10; MgrStatic 0 100; RemoveInput 0; PortData 0 [3] 11 11] in
+  fold_left (port_view_step 0) ops (false, new_port) =
+    (false, {| p_src := {| s_data := [1; 2]; s_ts := 10; s_prio := 150 |}; p_static := 100;
+               p_inherit := false; p_inherited := 150; p_caps := true |}) /\
+  p_src (w_ports (run ops) 0) = {| s_data := [1; 2]; s_ts := 10; s_prio := 150 |}.
+Proof. vm_compute. split; reflexivity. Qed.
